@@ -16,6 +16,7 @@ from __future__ import annotations
 
 import socket
 import struct
+from functools import lru_cache
 
 HEADER_LEN = 29
 POS_MSG = 22
@@ -73,6 +74,7 @@ def make_cell(prefix: bytes, circuit_id: int, body: bytes, plaintext: bool = Fal
     return prefix + b"\x00" + struct.pack(">I", circuit_id) + bytes([int(plaintext), int(relay_early)]) + body
 
 
+@lru_cache(maxsize=4096)
 def payload(size: int, salt: int) -> bytes:
     """
     `size` bytes shaped like a bencoded dictionary (b"d...e": passes the exit's BitTorrent test for size >= 2),
